@@ -61,7 +61,7 @@ Lemma structural_vstore_at base so : structural (vstore_at_p base so).
 Proof.
   unfold vstore_at_p.
   apply structural_pbind; [apply structural_rdblock_lift|intros t].
-  destruct t; (apply structural_pbind; [apply structural_rdblock_ret|intros data]; exact I).
+  destruct t; (destruct (N.ltb _ _); [exact I|]); (apply structural_pbind; [apply structural_rdblock_ret|intros data]; exact I).
 Qed.
 
 Lemma structural_manifest_open pos : structural (manifest_open_p pos).
@@ -98,6 +98,7 @@ Proof.
   apply structural_pbind; [apply structural_ptr_at|intros so].
   apply structural_pbind; [apply structural_rdblock_lift|intros ly].
   destruct (l_checked ly); [exact I|].
+  destruct (N.ltb _ _); [exact I|].
   apply structural_pbind; [apply structural_rdblock_ret|intros data]. exact I.
 Qed.
 
@@ -124,5 +125,6 @@ Proof.
   destruct (N.leb _ _); [exact I|].
   apply structural_pbind; [apply structural_lift|intros [so r]].
   apply structural_pbind; [apply structural_rdblock_lift|intros t].
-  destruct (Nat.leb _ _); [exact I|]. destruct (N.eqb _ _); exact I.
+  destruct (N.ltb _ _); [exact I|].
+  destruct (Nat.leb _ _); [exact I|]. destruct (N.ltb _ _); [exact I|]. destruct (N.eqb _ _); exact I.
 Qed.
